@@ -60,13 +60,36 @@ NoPositiveCycle(r, dim) == LET d0 == [v \in 0..(r.n - 1) |-> 0]
                                dn == Relax(r, dim, d0, r.n)
                            IN  Relax(r, dim, dn, 1) = dn
 OnlyPlainSeparations(r) == \A i \in DOMAIN r.cons : r.cons[i].kind = 1 /\ r.cons[i].a[4] = 0
+\* Without overlap avoidance the same holds for equalities and alignments: separations, separation equalities and alignments with offsets
+\* are difference constraints (x_r - x_l >= g; an equality or a pair of aligned nodes gives one in each direction), satisfiable exactly when
+\* their constraint graph has no positive cycle
+OnlySepAlign(r) == \A i \in DOMAIN r.cons : r.cons[i].kind \in {1, 2}
+DiffsOf(r, dim) == UNION { LET c == r.cons[i] IN
+                              IF c.dim # dim THEN {}
+                              ELSE IF c.kind = 1 THEN {<<c.a[1], c.a[2], c.a[3]>>} \cup (IF c.a[4] = 1 THEN {<<c.a[2], c.a[1], -c.a[3]>>} ELSE {})
+                              ELSE {<<m1[1], m2[1], m2[2] - m1[2]>> : m1 \in AlMembers(c), m2 \in AlMembers(c)} : i \in DOMAIN r.cons }
+RECURSIVE RelaxD(_, _, _, _)
+RelaxD(r, D, dist, k) == IF k = 0 THEN dist
+                         ELSE RelaxD(r, D, [v \in 0..(r.n - 1) |->
+                                  LET inc == {dist[e[1]] + e[3] : e \in {e \in D : e[2] = v}} \cup {dist[v]}
+                                  IN  CHOOSE x \in inc : \A y \in inc : x >= y], k - 1)
+NoPositiveCycleD(r, dim) == LET D == DiffsOf(r, dim)
+                                dn == RelaxD(r, D, [v \in 0..(r.n - 1) |-> 0], r.n)
+                            IN  RelaxD(r, D, dn, 1) = dn
 MakeFeasibleOnly(r) == (r.flags \div 32) % 2 = 1
 C07Tags(r) ==
     IF ~r.thrown /\ MakeFeasibleOnly(r) THEN
         (IF OnlyPlainSeparations(r) /\ NoPositiveCycle(r, 0) /\ NoPositiveCycle(r, 1)
             /\ (\A i \in 1..r.n : r.pos[i][1] \notin {SENT, FAR} /\ r.pos[i][2] \notin {SENT, FAR})
             /\ \E i \in DOMAIN r.cons : ~SepOK(r, r.cons[i])
-         THEN {<<"makeFeasible-leaves-a-satisfiable-constraint-violated", "separation">>} ELSE {}) ELSE
+         THEN {<<"makeFeasible-leaves-a-satisfiable-constraint-violated", "separation">>}
+         ELSE IF ~OnlyPlainSeparations(r) /\ OnlySepAlign(r) /\ r.flags % 2 = 0 /\ NoPositiveCycleD(r, 0) /\ NoPositiveCycleD(r, 1)
+            /\ (\A i \in 1..r.n : r.pos[i][1] \notin {SENT, FAR} /\ r.pos[i][2] \notin {SENT, FAR})
+            /\ \E i \in DOMAIN r.cons : ~Holds(r, {}, r.cons[i])
+         \* (the unchanged library does leave such systems violated now and then -- the incremental solver flags a feasible equality that closes
+         \*  a cycle and makeFeasible() drops it without a record: known finding F52, so this class has a key of its own)
+         THEN {<<"makeFeasible-leaves-a-satisfiable-constraint-violated", "system-with-equalities-or-alignments">>}
+         ELSE {}) ELSE
     IF r.thrown THEN {"exception"} ELSE
     LET rep == ToSet(r.reported) IN
     (IF \E i \in 1..r.n : r.pos[i][1] = SENT \/ r.pos[i][2] = SENT THEN {"non-finite-coordinate"} ELSE
